@@ -190,7 +190,8 @@ pub fn gen_cfg(rng: &mut Rng, prof: &Profile) -> WorldCfg {
     let penalty = *rng.pick(&["0", "0.01", "0.02", "0.1", "0.25", "0.5", "0.9", "1"]);
     let farm = FarmCfg {
         create_farm_fee,
-        max_concurrent_farms: rng.range(1, 4) as u32,
+        // mostly small limits; sometimes more farms than one page of the farm queries (10)
+        max_concurrent_farms: if rng.chance(1, 10) { 12 } else { rng.range(1, 4) as u32 },
         max_farm_epoch_buffer: *rng.pick(&[1u32, 3, 14, 14, 30]),
         min_unlocking_duration: DAY,
         max_unlocking_duration: *rng.pick(&[YEAR, YEAR, 31_536_000, 30 * DAY]),
